@@ -4,7 +4,7 @@ Decides the structural clauses (bounded copy, atomic failure path, sticky flag, 
 fixed writer keeps one byte, flush after call, who-may-write).  Does not execute anything."""
 import re
 import common as C
-from common import MirFn, sym_show, sym_strip, sym_is_field, sym_is_arg
+from common import MirFn, sym_show, sym_strip, sym_is_field, sym_is_arg, sym_walk
 
 P = "C12"
 
@@ -263,11 +263,50 @@ def run(ck, facts):
             if last == ".grow_failed":
                 v = mf.sym_rv(st["rv"])
                 ck.expect(v == ("const", "true"), "R3", "%s/grow_failed-store" % f["path"], "only ever set to true", "grow_failed is assigned %s (flag must be sticky)" % sym_show(v), C.loc(f, st.get("ln")))
+    # who may write: the functions that store the bookkeeping fields or write through `buf` are exactly the ones R1-R6/R10 analyse
+    WRITERS = {
+        ("<diplomat_runtime::write::DiplomatWrite as core::fmt::Write>::write_str", "store.grow_failed"),
+        ("<diplomat_runtime::write::DiplomatWrite as core::fmt::Write>::write_str", "store.len"),
+        ("<diplomat_runtime::write::DiplomatWrite as core::fmt::Write>::write_str", "write-through-buf"),       # R1-R4
+        ("diplomat_runtime::write::diplomat_simple_write::flush", "write-through-buf"),                          # R6 (the NUL)
+        ("diplomat_runtime::write::diplomat_buffer_write_create::grow", "store.cap"),                            # R10
+        ("diplomat_runtime::write::diplomat_buffer_write_create::grow", "store.buf"),                            # R10
+    }
+    RAWW = re.compile(r"(ptr::write|copy_nonoverlapping|ptr::copy|write_bytes|write_unaligned|write_volatile|mut_ptr::<impl \*mut T>::(write|copy_from|copy_from_nonoverlapping|write_bytes|copy_to|copy_to_nonoverlapping))$")
+    seen_w = set()
+    for f in rt.fn_list:
+        mir = f.get("mir")
+        if not mir or "blocks" not in mir:
+            continue
+        mf = MirFn(f)
+        found = []
+        for bb, st in mf.stores():
+            proj = st["lhs"].get("p") or []
+            if proj and proj[-1] in (".buf", ".len", ".cap", ".grow_failed") and "DiplomatWrite" in mir["locals"][st["lhs"]["l"]]["ty"]:
+                found.append(("store" + proj[-1], st.get("ln")))
+        for bb, t in mf.calls():
+            cal = C.mir_callee(t) or ""
+            if RAWW.search(cal):
+                # any argument deriving from a DiplomatWrite's buf?
+                if any(x[0] == "proj" and x[2] == ".buf" for a in t["args"] for x in sym_walk(mf.sym_op(a)) if isinstance(x, tuple) and len(x) > 2):
+                    found.append(("write-through-buf", t.get("ln")))
+            elif re.search(r"slice::raw::from_raw_parts_mut$", cal) and any(x[0] == "proj" and x[2] == ".buf" for a in t["args"] for x in sym_walk(mf.sym_op(a)) if isinstance(x, tuple) and len(x) > 2):
+                found.append(("write-through-buf", t.get("ln")))
+        for kind, ln in found:
+            k = (f["path"], kind)
+            if k in seen_w:
+                continue
+            seen_w.add(k)
+            ck.expect(k in WRITERS, "R8", "writer/%s/%s" % (f["path"], kind), "analysed by R1-R6/R10",
+                      "%s now %s of a DiplomatWrite but is not one of the functions whose bounds/flag discipline is analysed (write_str, simple_write::flush, create::grow): "
+                      "a second write path must obey the same sticky-flag, bounded-copy and len-after-copy rules" % (f["path"], "writes through `buf`" if kind == "write-through-buf" else "stores `%s`" % kind[6:]), C.loc(f, ln))
+    for k in WRITERS - seen_w:
+        ck.bad("R8", "writer/%s/%s" % k, "expected writer site not found (anchor moved?)")
     adt = rt.adt("write::DiplomatWrite")
     ck.expect(adt["repr_c"], "R8", "DiplomatWrite/repr(C)", "", "DiplomatWrite is not repr(C)")
     for fld in adt["variants"][0]["fields"]:
         ck.expect(not fld["vis"].startswith("Public"), "R8", "DiplomatWrite.%s/private" % fld["name"], fld["vis"], "field %s of DiplomatWrite is public: the bookkeeping invariant can be broken by any crate" % fld["name"], C.loc(adt))
-    ck.floor("R8", 4 + 7)
+    ck.floor("R8", 4 + 7 + 6)
 
     # --- R5 accessors
     for name, field, nullish in (("diplomat_buffer_write_get_bytes", "buf", "null"), ("diplomat_buffer_write_len", "len", "zero")):
